@@ -182,6 +182,12 @@ def search(ctx):
                     pre = Line(P(c[0].x, c[0].y), P(c[1].x, c[1].y)) if (len(c.points) == 3 or rng.random() < 0.6) else QuadraticBezier(P(c[0].x, c[0].y), P(c[1].x, c[1].y), P(c[2].x, c[2].y))
                     B.insert(rng.randrange(len(B) + 1), pre)
             if rng.random() < 0.5: A, B = B, A
+        if A and isinstance(A[0], type(Rectangle(1, 1))) and rng.random() < 0.4:
+            # tiny but real shapes (3e-9 .. 1e-5 units across: down to 1e-11 of their coordinates) at ordinary coordinates, inside or outside the rectangles of the other collection
+            for _k in range(rng.randint(1, 3)):
+                r_ = rng.choice(A); bb = r_.bounds(); sz = 10.0 ** rng.uniform(-8.5, -5)
+                o_ = P(rng.uniform(bb.left, bb.right) if rng.random() < 0.7 else rng.uniform(-300, 300), rng.uniform(bb.bottom, bb.top) if rng.random() < 0.7 else rng.uniform(-300, 300))
+                B.insert(rng.randrange(len(B) + 1), Line(o_, P(o_.x + sz, o_.y + sz * rng.uniform(0.2, 1))))
         if not tie_free([a.bounds() for a in A], [b.bounds() for b in B]): continue
         ev += 1; dist['sweep/shapes'] = dist.get('sweep/shapes', 0) + 1
         try:
